@@ -121,6 +121,13 @@ CLAIMED = {
             "offset used for the row index, V::new over the filled digest vector), in both builds. That rows equal polynomial "
             "values is numerical and not decided.",
             "rustc MIR of both feature configurations", "DESIGN.md section 4, C28"),
+    "C27": ("A5 panic inventory over ReadAdapter's ByteReader methods + fill-postcondition / EOF-origin / raw-sink rules",
+            "Decides four structural clauses of the streaming reader: (R1) no undischarged panic site reachable from its ByteReader methods "
+            "(arithmetic, indexing, RefCell borrows, explicit panics; reviewed reasons re-verified each run); (R2, R3) buffer_at_least(count) returns Ok only "
+            "past `count == 0 || buffer().len() >= count` with count never reassigned, and callers consume exactly what they asked for; (R4) raw-memory "
+            "sinks are bounded by the source's length, a dominating comparison or the fill postcondition; (R5) UnexpectedEOF is produced only where the "
+            "stream reported end of input. That the values returned equal SliceReader's for every chunking is a refinement between two stateful machines and is not decided.",
+            "rustc MIR; reviewed reasons in wfstatic/tables/panic_sites.json", "DESIGN.md section 4, C27"),
 }
 
 NOT_APPLICABLE = {
@@ -134,7 +141,6 @@ NOT_APPLICABLE = {
     "C21": "Assertion step sets / overlap detection are arithmetic case analysis over run-time integers; deciding exactness is enumeration, i.e. execution.",
     "C22": "Vanishing of boundary constraints on asserted cells is numerical (interpolation, divisor evaluation).",
     "C23": "Divisor degrees, evaluation degrees and periodic polynomials are formulas over run-time integers/field values.",
-    "C27": "Equivalence of the streaming reader with the slice reader over all chunkings is a refinement between two stateful machines on run-time buffers; needs model checking or execution.",
     "C29": "Trace validation agreeing with an independent checker requires evaluating constraints on traces.",
 }
 
